@@ -13,6 +13,9 @@ type xof struct {
 	// key is here to not make excess garbage during repeated calls
 	// to XORKeyStream.
 	key []byte
+	// initial is the state right after seeding, which Reset restores even
+	// after Reseed has replaced impl; nil for clones
+	initial blake2b.XOF
 }
 
 // New creates a new XOF using the Blake2b hash.
@@ -37,7 +40,7 @@ func New(seed []byte) kyber.XOF {
 	seedCopy := make([]byte, len(seed2))
 	copy(seedCopy, seed2)
 
-	return &xof{impl: b, seed: seedCopy}
+	return &xof{impl: b, seed: seedCopy, initial: b.Clone()}
 }
 
 func (x *xof) Clone() kyber.XOF {
@@ -74,6 +77,10 @@ func (x *xof) Reseed() {
 }
 
 func (x *xof) Reset() {
+	if x.initial != nil {
+		x.impl = x.initial.Clone()
+		return
+	}
 	x.impl.Reset()
 	_, _ = x.impl.Write(x.seed)
 }
